@@ -245,11 +245,12 @@ def oracle_history(d, dk, ops, obs):
 
 def main(tier, seed, replay=None):
     logging.disable(logging.CRITICAL)
+    core.quiet_stderr(PROP)
     res = core.Result(PROP, tier, seed)
     res.rule = ('child stream: systematic defaults (list/tuple, length 0-3) x default kwargs x enqueue shapes (fewer/as many/more positionals, '
                 'overriding/new keywords) plus seeded random cases with up to 8 enqueues, a target that hashes and then mutates every argument; '
-                'parent API: seeded random histories of enqueue/next_result/call/close/wait of length <= 9 that never block. quick: thread kind; '
-                'thorough: + process and remote kinds. Non-trivial = at least one enqueue and (defaults non-empty or history with close/wait).')
+                'parent API: seeded random histories of enqueue/next_result/call/close/wait of length <= 9 that never block. all three kinds (process/remote: a spread of the '
+                'systematic cases and fewer random ones, more in thorough). Non-trivial = at least one enqueue and (defaults non-empty or history with close/wait).')
     res.assumptions = ['copy.deepcopy gives an independent copy; list() a new list sharing its elements (modelled by the copy kinds of Persist/Model.v)',
                        'keyword order is insertion order (Python dict)']
     res.trusted.append('hand-written interpreter Persist/Model.v for the generated instruction lists; harness/props/c05.py')
@@ -258,7 +259,7 @@ def main(tier, seed, replay=None):
     import sys
     sys.path.insert(0, core.REPO)
     rnd = random.Random(seed)
-    kinds = ['thread'] if tier == 'quick' else ['thread', 'process', 'remote']
+    kinds = ['thread', 'process', 'remote']
     server = None
     host = None
     terms, keep = [], []
@@ -276,10 +277,12 @@ def main(tier, seed, replay=None):
                     c['es'] = [(a, [tuple(p) for p in k]) for a, k in c['es']]; c['dk'] = [tuple(p) for p in c['dk']]; c['kind'] = 'corpus'
                     corpus.append(c)
         for kind in kinds:
-            n = (120 if kind == 'thread' else 25) if tier == 'quick' else (600 if kind == 'thread' else 40)
+            n = (120 if kind == 'thread' else 4) if tier == 'quick' else (600 if kind == 'thread' else 40)
             cases = corpus + gen_child_cases(rnd, n)
             if kind != 'thread':
-                cases = cases[:len(corpus) + 12] + cases[-n:]
+                # spawning is expensive: a spread of the systematic cases plus the random ones
+                syst = cases[len(corpus):len(cases) - n]
+                cases = corpus + syst[3::(5 if tier == 'quick' else 2)] + cases[-n:]
             for c in cases:
                 ob = run_child_case(kind, c, host)
                 res.count('child:' + kind); res.count('case:' + c['kind'])
@@ -289,9 +292,14 @@ def main(tier, seed, replay=None):
                 if why:
                     res.violation(dict(kind=kind, d=c['d'], tuple=c['tuple'], dk=c['dk'], es=c['es']), why, observed=ob)
                 terms.append(child_term(kind, c, ob)); keep.append((kind, c, ob))
-            for _ in range((150 if kind == 'thread' else 10) if tier == 'quick' else (800 if kind == 'thread' else 40)):
+            e1, e2 = ([1], []), ([2, 3], [])
+            systematic = [[('close',), ('enq', e1)], [('enq', e1), ('close',), ('enq', e2), ('next',), ('next',)],
+                          [('wait',), ('enq', e1)], [('enq', e1), ('enq', e2), ('next',), ('wait',), ('next',), ('next',)],
+                          [('call', e1), ('call', e2), ('close',), ('call', e1)]]
+            nrand = (150 if kind == 'thread' else 6) if tier == 'quick' else (800 if kind == 'thread' else 40)
+            for hi in range(len(systematic) + nrand):
                 d = [rnd.randint(0, 99) for _ in range(rnd.randint(0, 3))]
-                ops = gen_history(rnd)
+                ops = systematic[hi] if hi < len(systematic) else gen_history(rnd)
                 obs = run_history(kind, d, [], ops, host)
                 res.count('history:' + kind)
                 res.case((kind, 'hist', tuple(d), repr(ops)), nontrivial=any(o[0] in ('close', 'wait') for o in ops),
